@@ -132,7 +132,100 @@ def rotNodeOk (op : Op) (p : Payload) : Bool :=
   | .bvRol, .ints [w, k] | .bvRor, .ints [w, k] => decide (k ≤ w)
   | _, _ => true
 
+/-! ## The checker on *raw* nodes of the wrong arity (`pyNode`)
+
+`typeOfNode` (Core) is exact on every node whose number of arguments is the operator's arity —
+all nodes a `FormulaManager` constructor can build. On raw `create_node` calls with another
+number of arguments `SimpleTypeChecker` is lenient in ways `typeOfNode` does not follow: rules
+that index `args[0]`, `args[1]` ignore further arguments (`walk_bv_concat`, `walk_bv_extract`,
+`walk_bv_rotate`, `walk_ite`, `walk_array_select`, `walk_array_store`, `walk_pow`), raise on an
+empty argument tuple (`walk_math_relation`: `args[0]`), accept an array value whose last key has
+no value (`walk_array_value` checks positions by parity), assert that the name of an
+application is a function symbol, and (since /repo f0cd2ee) look at the binder list.
+`pyNode` transcribes these rules; `Proofs/C03Raw.lean` proves
+`arityOk op ts.length → rawPayloadOk op p → pyNode op p ts = typeOfNode op p ts`,
+and the driver's `chk` answers with `pyNode`-based `typeOfRaw`/`wtRaw`, so that grid A compares
+every raw call exactly (no counted exceptions). Not expressible: a `symbol` node of function
+type (Python types it with the function type; `Ty` has no such sort). -/
+
+/-- `walk_array_value` (type_checker.py:334-345): positions checked by parity, no pairing -/
+def chkPy (idx d : Ty) : List (Option Ty) → Bool
+  | k :: v :: more => k == some idx && v == some d && chkPy idx d more
+  | [k] => k == some idx
+  | [] => true
+
+/-- the rule `SimpleTypeChecker` applies to a raw node, for any number of arguments -/
+def pyNode (op : Op) (p : Payload) (ts : List (Option Ty)) : Option Ty :=
+  match op with
+  | .bvConcat =>
+    (match p, ts with
+      | .ints (w :: _), some (.bv l) :: some (.bv r) :: _ => if l + r = w then some (.bv w) else none
+      | _, _ => none)
+  | .bvExtract =>
+    (match p, ts with
+      | .ints (w :: lo :: hi :: _), some (.bv base) :: _ =>
+        if lo ≥ base ∨ hi ≥ base then none else if base < w then none
+        else if w + lo ≠ hi + 1 then none else some (.bv w)
+      | _, _ => none)
+  | .bvRol | .bvRor =>
+    (match p, ts with
+      | .ints (w :: k :: _), some (.bv a) :: _ => if w < k then none else if w ≠ a then none else some (.bv w)
+      | _, _ => none)
+  | .ite =>
+    (match ts with
+      | some .bool :: some a :: some b :: rest => if rest.all Option.isSome ∧ a = b then some a else none
+      | _ => none)
+  | .arraySelect =>
+    (match ts with
+      | some (.array i e) :: some j :: rest => if rest.all Option.isSome ∧ i = j then some e else none
+      | _ => none)
+  | .arrayStore =>
+    (match ts with
+      | some (.array i e) :: some j :: some v :: rest =>
+        if rest.all Option.isSome ∧ i = j ∧ e = v then some (.array i e) else none
+      | _ => none)
+  | .pow => (match ts with | a :: b :: _ => if a = b then some .real else none | _ => none)
+  | .arrayValue =>
+    (match p, ts with
+      | .ty idx, some d :: rest => if chkPy idx d rest then some (.array idx d) else none
+      | _, _ => none)
+  | .le | .lt => (match ts with | [] => none | _ => typeOfNode op p ts)
+  | .function =>
+    (match p with
+      | .sym f => if f.params.isEmpty then none else typeOfNode op p ts
+      | _ => none)
+  | .forall_ | .exists_ =>
+    (match p, ts with
+      | .qvars vs, [some .bool] => if vs.all (fun v => v.params.isEmpty) then some .bool else none
+      | _, _ => none)
+  | _ => typeOfNode op p ts
+
+/-- payload side conditions of the boundary theorem: a binder list the repaired
+`walk_quantifier` accepts; no payload elements beyond the ones the rule reads
+(`payload[0..2]` for extract, `payload[0..1]` for rotations — Python ignores further ones) -/
+def rawPayloadOk (op : Op) (p : Payload) : Bool :=
+  match op with
+  | .forall_ | .exists_ => (match p with | .qvars vs => vs.all (fun v => v.params.isEmpty) | _ => false)
+  | .bvExtract => (match p with | .ints l => decide (l.length ≤ 3) | _ => true)
+  | .bvRol | .bvRor => (match p with | .ints l => decide (l.length ≤ 2) | _ => true)
+  | _ => true
+
 end CreateNode
+
+/-- the type the real checker computes for a raw tree (`pyNode` at every node) -/
+def Term.typeOfRaw : Term → Option Ty
+  | .node op args p => CreateNode.pyNode op p (args.map Term.typeOfRaw)
+
+/-- every sub-term is accepted by the real checker -/
+def Term.wtRaw : Term → Bool
+  | .node op args p =>
+    (args.map Term.wtRaw).all id && (CreateNode.pyNode op p (args.map Term.typeOfRaw)).isSome
+
+/-- every node of `t` has the arity of its operator (and a payload the boundary theorem covers):
+true of every term a `FormulaManager` constructor builds -/
+def Term.arityOkAll : Term → Bool
+  | .node op args p =>
+    (args.map Term.arityOkAll).all id && CreateNode.arityOk op args.length && CreateNode.rawPayloadOk op p
 
 /-- no node of `t` falls into a hole of the checker (F06) -/
 def Term.noF06 : Term → Bool
